@@ -152,7 +152,13 @@ def main():
             with open(os.path.join(d, f"{n}.py"), "w") as f:
                 f.write(msrc)
             changed = [l for l in difflib.unified_diff(norm.splitlines(), msrc.splitlines(), lineterm="", n=0) if l[:1] in "+-" and not l.startswith(("+++", "---"))]
-            index.append({"module": mod, "file": rel, "n": n, "kind": site.kind, "desc": site.desc, "line": site.lineno, "change": changed[:4]})
+            outer = None          # outermost enclosing function (methods: the method itself)
+            for nd in ast.walk(ntree):
+                if isinstance(nd, ast.FunctionDef) and nd.lineno <= site.lineno <= nd.end_lineno:
+                    if outer is None or (nd.end_lineno - nd.lineno) > (outer.end_lineno - outer.lineno):
+                        outer = nd
+            func = outer.name if outer else ""
+            index.append({"module": mod, "file": rel, "n": n, "kind": site.kind, "desc": site.desc, "line": site.lineno, "func": func, "change": changed[:4]})
     with open(os.path.join(out, "index.jsonl"), "w") as f:
         for r in index:
             f.write(json.dumps(r) + "\n")
